@@ -217,8 +217,7 @@ func packageRange(c *Ctx) {
 	}
 	it.add("PATH", "rollback is deferred before Get", P.Before(it.fn, an.Is(deferIn), get), "the defer dominates the Get call (so it covers Get/fn/Commit failures and panics)", deferIn)
 	rq := &fq{c: c, fn: rb, name: an.FuncName(rb)}
-	success := an.CellByName(it.fn, "success")
-	var succCell *ssa.Alloc = success
+	var succCell *ssa.Alloc
 	rollback := P.CallsTo(rb, "invoke:bigbuff.Consumer.Rollback")[0]
 	// find the If in rb on a load of a bool cell owned by it.fn
 	ifs, negs := P.IfsOn(rb, func(cond ssa.Value) bool {
@@ -275,6 +274,31 @@ func packageRange(c *Ctx) {
 	})
 	if q.need(calls, "PATH", "call of the per-iteration closure") {
 		q.add("WL", "Range iterates", P.InCycle(calls[0]), "the per-iteration closure is called in a loop", calls[0])
+	}
+	// the index handed to the callback starts at 0 and grows by one per value
+	if idx := callArg(fnCall, 0); idx != nil {
+		if ld, isL := isLoad(idx); isL {
+			if cell := P.CellOf(ld.X); cell != nil {
+				good := false
+				n := 0
+				for _, in := range an.AllInstrs(q.fn, func(in ssa.Instruction) bool { _, ok := in.(*ssa.Store); return ok }) {
+					st := in.(*ssa.Store)
+					al, isA := st.Addr.(*ssa.Alloc)
+					if !isA || al.Comment != cell.Comment || al.Type() != cell.Type() {
+						continue
+					}
+					if bo, isB := st.Val.(*ssa.BinOp); isB && bo.Op == token.ADD {
+						n++
+						if k, isK := constInt(bo.Y); isK && k == 1 {
+							good = true
+						} else {
+							good = false
+						}
+					}
+				}
+				it.add("LIN", "the callback's index counts the values one by one", good && n == 1, "index' = index + 1", fnCall)
+			}
+		}
 	}
 }
 
